@@ -8,10 +8,13 @@ import (
 
 // convType unifies integer, word and 64-bit fixed-point types for C16.
 type convType struct {
-	Name  string
-	Int   *numType
-	Fix   *fixType
-	Scale string // "" for integers, decimal factor for fixed-point
+	Name   string
+	Int    *numType
+	Fix    *fixType
+	Scale  string // "" for integers, decimal factor for fixed-point
+	Fix128 bool   // Fix128 / UFix128 (Signed in F128Signed)
+	Signed bool
+	Exp    int // decimal scale exponent: 0, 8, 24
 }
 
 func convTypes() []convType {
@@ -23,12 +26,17 @@ func convTypes() []convType {
 		r = append(r, convType{Name: wordTypes[i].Name, Int: &wordTypes[i]})
 	}
 	for i := range fix64Types {
-		r = append(r, convType{Name: fix64Types[i].Name, Fix: &fix64Types[i], Scale: "100000000"})
+		r = append(r, convType{Name: fix64Types[i].Name, Fix: &fix64Types[i], Scale: "100000000", Exp: 8})
 	}
+	r = append(r, convType{Name: "Fix128", Fix128: true, Signed: true, Scale: "1e24", Exp: 24})
+	r = append(r, convType{Name: "UFix128", Fix128: true, Signed: false, Scale: "1e24", Exp: 24})
 	return r
 }
 
 func (c convType) operand(x, X string) string {
+	if c.Fix128 {
+		return fmt.Sprintf("\t%shi, %slo := zzNondetUint64(), zzNondetUint64()\n\t%s := %sValue(fix.New%s(%shi, %slo))\n\t%s := zzFix128Big(%shi, %slo, %v)\n", x, x, x, c.Name, c.Name, x, x, X, x, x, c.Signed)
+	}
 	if c.Int != nil {
 		return c.Int.operand(x, X)
 	}
@@ -36,6 +44,9 @@ func (c convType) operand(x, X string) string {
 }
 
 func (c convType) resultBig(r string) string {
+	if c.Fix128 {
+		return fmt.Sprintf("zzFix128Big(uint64(%s.(%sValue).Hi), uint64(%s.(%sValue).Lo), %v)", r, c.Name, r, c.Name, c.Signed)
+	}
 	if c.Int != nil {
 		return c.Int.resultBig(r)
 	}
@@ -43,6 +54,12 @@ func (c convType) resultBig(r string) string {
 }
 
 func (c convType) minmax() (string, string) {
+	if c.Fix128 {
+		if c.Signed {
+			return "new(big.Int).Neg(new(big.Int).Lsh(big.NewInt(1), 127))", "new(big.Int).Sub(new(big.Int).Lsh(big.NewInt(1), 127), big.NewInt(1))"
+		}
+		return "new(big.Int)", "new(big.Int).Sub(new(big.Int).Lsh(big.NewInt(1), 128), big.NewInt(1))"
+	}
 	if c.Int != nil {
 		return c.Int.specMin(), c.Int.specMax()
 	}
@@ -51,6 +68,12 @@ func (c convType) minmax() (string, string) {
 
 // numeric range of a type's raw representation (nil = unbounded)
 func rawRange(c convType) (lo, hi *big.Int) {
+	if c.Fix128 {
+		if c.Signed {
+			return new(big.Int).Neg(new(big.Int).Lsh(big.NewInt(1), 127)), new(big.Int).Sub(new(big.Int).Lsh(big.NewInt(1), 127), big.NewInt(1))
+		}
+		return big.NewInt(0), new(big.Int).Sub(new(big.Int).Lsh(big.NewInt(1), 128), big.NewInt(1))
+	}
 	if c.Fix != nil {
 		if c.Fix.Signed {
 			return new(big.Int).Neg(new(big.Int).Lsh(big.NewInt(1), 63)), new(big.Int).Sub(new(big.Int).Lsh(big.NewInt(1), 63), big.NewInt(1))
@@ -74,18 +97,17 @@ func rawRange(c convType) (lo, hi *big.Int) {
 func canBeOutOfRange(src, dst convType) bool {
 	slo, shi := rawRange(src)
 	dlo, dhi := rawRange(dst)
-	f := big.NewInt(100000000)
 	conv := func(v *big.Int) *big.Int {
 		if v == nil {
 			return nil
 		}
 		switch {
-		case src.Scale == dst.Scale:
+		case src.Exp == dst.Exp:
 			return v
-		case src.Scale != "" && dst.Scale == "":
-			return new(big.Int).Quo(v, f)
+		case src.Exp > dst.Exp:
+			return new(big.Int).Quo(v, new(big.Int).Exp(big.NewInt(10), big.NewInt(int64(src.Exp-dst.Exp)), nil))
 		default:
-			return new(big.Int).Mul(v, f)
+			return new(big.Int).Mul(v, new(big.Int).Exp(big.NewInt(10), big.NewInt(int64(dst.Exp-src.Exp)), nil))
 		}
 	}
 	tlo, thi := conv(slo), conv(shi)
@@ -101,7 +123,8 @@ func canBeOutOfRange(src, dst convType) bool {
 func genC16(tier string) (map[string]string, error) {
 	var sb strings.Builder
 	sb.WriteString(numericHeader)
-	sb.WriteString("//verif:assume source values satisfy the representation invariant; gauge nil; Fix128/UFix128 sources and targets are outside this claim (external fixed-point library)\n")
+	sb.WriteString(fix128Helpers)
+	sb.WriteString("//verif:assume source values satisfy the representation invariant; gauge nil; Fix128/UFix128 values are arbitrary (Hi,Lo) word pairs; the WithRounding variants are outside\n")
 	sb.WriteString("//verif:assume an out-of-range conversion may fail with either OverflowError or UnderflowError (the property does not say which)\n")
 	types := convTypes()
 	for _, src := range types {
@@ -111,12 +134,12 @@ func genC16(tier string) (map[string]string, error) {
 			fmt.Fprintf(&sb, "\tout := zzCatch(func() any { return Convert%s(nil, x) })\n", dst.Name)
 			// exact target raw value
 			switch {
-			case src.Scale == dst.Scale:
+			case src.Exp == dst.Exp:
 				sb.WriteString("\tt := A\n")
-			case src.Scale != "" && dst.Scale == "":
-				fmt.Fprintf(&sb, "\tt := new(big.Int).Quo(A, big.NewInt(%s))\n", src.Scale)
+			case src.Exp > dst.Exp:
+				fmt.Fprintf(&sb, "\tt := new(big.Int).Quo(A, zzPow10Big(%d))\n", src.Exp-dst.Exp)
 			default:
-				fmt.Fprintf(&sb, "\tt := new(big.Int).Mul(A, big.NewInt(%s))\n", dst.Scale)
+				fmt.Fprintf(&sb, "\tt := new(big.Int).Mul(A, zzPow10Big(%d))\n", dst.Exp-src.Exp)
 			}
 			mn, mx := dst.minmax()
 			if dst.Int != nil && dst.Int.Word {
@@ -149,3 +172,22 @@ func genC16(tier string) (map[string]string, error) {
 func init() {
 	generators["C16"] = append(generators["C16"], genC16)
 }
+
+const fix128Helpers = `
+func zzPow10Big(n int) *big.Int {
+	r := big.NewInt(1)
+	for i := 0; i < n; i++ {
+		r = new(big.Int).Mul(r, big.NewInt(10))
+	}
+	return r
+}
+
+// exact raw integer (value * 10^24) of a 128-bit fixed-point word pair
+func zzFix128Big(hi, lo uint64, signed bool) *big.Int {
+	v := new(big.Int).Add(new(big.Int).Lsh(new(big.Int).SetUint64(hi), 64), new(big.Int).SetUint64(lo))
+	if signed {
+		v = zzIteBig(hi >= 1<<63, new(big.Int).Sub(v, new(big.Int).Lsh(big.NewInt(1), 128)), v)
+	}
+	return v
+}
+`
